@@ -3,8 +3,8 @@
 package ev
 
 import (
-	"encoding/json"
 	"encoding/hex"
+	"encoding/json"
 	"fmt"
 	"math"
 	"math/big"
@@ -318,66 +318,66 @@ func Join(es []E) string { return strings.Join(Keys(es), " ") }
 
 // ---- constructors (short names so alphabets stay readable) ----
 
-func EBD() E             { return E{K: BD} }
-func EED() E             { return E{K: ED} }
-func EV(v uint64) E      { return E{K: Version, U: v} }
-func EPad() E            { return E{K: Padding} }
-func ECom(ml bool, s string) E { return E{K: Comment, B: ml, Data: []byte(s)} }
-func ENull() E           { return E{K: Null} }
-func EBool(b bool) E     { return E{K: Boolean, B: b} }
-func ETrue() E           { return E{K: True} }
-func EFalse() E          { return E{K: False} }
-func EPInt(v uint64) E   { return E{K: PInt, U: v} }
-func ENInt(v uint64) E   { return E{K: NInt, U: v} }
-func EInt(v int64) E     { return E{K: Int, I: v} }
-func EBigInt(v *big.Int) E { return E{K: BigInt, Big: v} }
-func EFloat(v float64) E { return E{K: Float, F: v} }
-func EBigFloat(v *big.Float) E { return E{K: BigFloat, BF: v} }
-func EDFloat(v compact_float.DFloat) E { return E{K: DFloat, DF: v} }
-func EBigDec(v *apd.Decimal) E { return E{K: BigDecimal, BDec: v} }
-func EUID(b []byte) E    { return E{K: UID, Data: b} }
-func ENaN(sig bool) E    { return E{K: NaN, B: sig} }
-func ETime(t compact_time.Time) E { return E{K: Time, T: t} }
-func EList() E           { return E{K: List} }
-func EMap() E            { return E{K: Map} }
-func ERecType(id string) E { return E{K: RecordType, Data: []byte(id)} }
-func ERec(id string) E   { return E{K: Record, Data: []byte(id)} }
-func EEdge() E           { return E{K: Edge} }
-func ENode() E           { return E{K: Node} }
-func EEnd() E            { return E{K: End} }
-func EMarker(id string) E { return E{K: Marker, Data: []byte(id)} }
-func ERef(id string) E   { return E{K: Ref, Data: []byte(id)} }
+func EBD() E                                         { return E{K: BD} }
+func EED() E                                         { return E{K: ED} }
+func EV(v uint64) E                                  { return E{K: Version, U: v} }
+func EPad() E                                        { return E{K: Padding} }
+func ECom(ml bool, s string) E                       { return E{K: Comment, B: ml, Data: []byte(s)} }
+func ENull() E                                       { return E{K: Null} }
+func EBool(b bool) E                                 { return E{K: Boolean, B: b} }
+func ETrue() E                                       { return E{K: True} }
+func EFalse() E                                      { return E{K: False} }
+func EPInt(v uint64) E                               { return E{K: PInt, U: v} }
+func ENInt(v uint64) E                               { return E{K: NInt, U: v} }
+func EInt(v int64) E                                 { return E{K: Int, I: v} }
+func EBigInt(v *big.Int) E                           { return E{K: BigInt, Big: v} }
+func EFloat(v float64) E                             { return E{K: Float, F: v} }
+func EBigFloat(v *big.Float) E                       { return E{K: BigFloat, BF: v} }
+func EDFloat(v compact_float.DFloat) E               { return E{K: DFloat, DF: v} }
+func EBigDec(v *apd.Decimal) E                       { return E{K: BigDecimal, BDec: v} }
+func EUID(b []byte) E                                { return E{K: UID, Data: b} }
+func ENaN(sig bool) E                                { return E{K: NaN, B: sig} }
+func ETime(t compact_time.Time) E                    { return E{K: Time, T: t} }
+func EList() E                                       { return E{K: List} }
+func EMap() E                                        { return E{K: Map} }
+func ERecType(id string) E                           { return E{K: RecordType, Data: []byte(id)} }
+func ERec(id string) E                               { return E{K: Record, Data: []byte(id)} }
+func EEdge() E                                       { return E{K: Edge} }
+func ENode() E                                       { return E{K: Node} }
+func EEnd() E                                        { return E{K: End} }
+func EMarker(id string) E                            { return E{K: Marker, Data: []byte(id)} }
+func ERef(id string) E                               { return E{K: Ref, Data: []byte(id)} }
 func EArr(at events.ArrayType, n uint64, d []byte) E { return E{K: Array, AT: at, U: n, Data: d} }
-func ESArr(at events.ArrayType, s string) E { return E{K: StrArray, AT: at, Data: []byte(s)} }
-func EStr(s string) E    { return ESArr(events.ArrayTypeString, s) }
-func EMedia(mt string, d []byte) E { return E{K: Media, S: mt, Data: d} }
-func ECustomBin(t uint64, d []byte) E { return E{K: CustomBin, U: t, Data: d} }
-func ECustomText(t uint64, s string) E { return E{K: CustomText, U: t, Data: []byte(s)} }
-func EABegin(at events.ArrayType) E { return E{K: ArrayBegin, AT: at} }
-func EMBegin(mt string) E { return E{K: MediaBegin, S: mt} }
-func ECBegin(at events.ArrayType, t uint64) E { return E{K: CustomBegin, AT: at, U: t} }
-func EChunk(n uint64, more bool) E { return E{K: Chunk, U: n, B: more} }
-func EData(d []byte) E   { return E{K: Data, Data: d} }
+func ESArr(at events.ArrayType, s string) E          { return E{K: StrArray, AT: at, Data: []byte(s)} }
+func EStr(s string) E                                { return ESArr(events.ArrayTypeString, s) }
+func EMedia(mt string, d []byte) E                   { return E{K: Media, S: mt, Data: d} }
+func ECustomBin(t uint64, d []byte) E                { return E{K: CustomBin, U: t, Data: d} }
+func ECustomText(t uint64, s string) E               { return E{K: CustomText, U: t, Data: []byte(s)} }
+func EABegin(at events.ArrayType) E                  { return E{K: ArrayBegin, AT: at} }
+func EMBegin(mt string) E                            { return E{K: MediaBegin, S: mt} }
+func ECBegin(at events.ArrayType, t uint64) E        { return E{K: CustomBegin, AT: at, U: t} }
+func EChunk(n uint64, more bool) E                   { return E{K: Chunk, U: n, B: more} }
+func EData(d []byte) E                               { return E{K: Data, Data: d} }
 
 // ---- JSON (replay files) ----
 
 type jsonE struct {
 	K     string
-	U     uint64               `json:",omitempty"`
-	I     int64                `json:",omitempty"`
-	B     bool                 `json:",omitempty"`
-	AT    uint8                `json:",omitempty"`
-	S     string               `json:",omitempty"`
-	Data  []byte               `json:",omitempty"`
-	HasD  bool                 `json:",omitempty"`
-	FBits uint64               `json:",omitempty"`
-	Big   *big.Int             `json:",omitempty"`
-	BF    string               `json:",omitempty"`
-	BFP   uint                 `json:",omitempty"`
+	U     uint64                `json:",omitempty"`
+	I     int64                 `json:",omitempty"`
+	B     bool                  `json:",omitempty"`
+	AT    uint8                 `json:",omitempty"`
+	S     string                `json:",omitempty"`
+	Data  []byte                `json:",omitempty"`
+	HasD  bool                  `json:",omitempty"`
+	FBits uint64                `json:",omitempty"`
+	Big   *big.Int              `json:",omitempty"`
+	BF    string                `json:",omitempty"`
+	BFP   uint                  `json:",omitempty"`
 	DF    *compact_float.DFloat `json:",omitempty"`
-	BDec  *apd.Decimal         `json:",omitempty"`
-	T     *compact_time.Time   `json:",omitempty"`
-	Text  string               // human-readable spelling (ignored on input)
+	BDec  *apd.Decimal          `json:",omitempty"`
+	T     *compact_time.Time    `json:",omitempty"`
+	Text  string                // human-readable spelling (ignored on input)
 }
 
 func (e E) MarshalJSON() ([]byte, error) {
